@@ -435,6 +435,7 @@ Proof.
     + same_conns. auto.
     + lk Hch H. destruct (seqb tag ""%string); repeat same_conns; auto.
   - destruct (find_consumer ch tag); [|exact H]. cbn [fst].
+    apply allch_upd_chan; [intros ch0 Hc0; unfold LP, ledger in *; cbn; rewrite map_length; exact Hc0|].
     apply allch_upd_chan; [intros; assumption|]. apply LI_consumer_stop. exact H.
   - (* MGet *)
     destruct (queue_found s q) as [qu|]; [|exact H].
